@@ -1109,22 +1109,27 @@ Proof. induction l as [|c l IH]; cbn; [reflexivity|]. destruct (f c); cbn; rewri
 (* dep_graph_counts_exact_guarded: when the whole window fits into the one page the handler reads and
    span ids are unique, every cell of the matrix is the exact number of parent-child pairs *)
 Theorem dep_graph_counts_exact_guarded : forall page recs a b,
-  (length recs <= page)%nat -> NoDup (map sp_id recs) -> a <> b ->
+  (length recs <= page)%nat -> NoDup (map sp_id recs) -> same_trace_parents recs = true -> a <> b ->
   dep_count (dep_graph page recs) (a, b) = cross_pairs recs a b.
 Proof.
-  intros page recs a b Hlen Hnd Hab. unfold dep_graph, cross_pairs, count_if.
+  intros page recs a b Hlen Hnd Hst Hab. unfold dep_graph, cross_pairs, count_if.
   rewrite firstn_all2 by exact Hlen. rewrite dep_fold. cbn [dep_count]. rewrite N.add_0_l. f_equal.
-  rewrite filter_list_prod_length, filter_length_sum. f_equal. apply map_ext. intro c.
+  rewrite filter_list_prod_length, filter_length_sum. f_equal. apply map_ext_in. intros c Hc.
   unfold dep_hit, is_cross.
   destruct (is_empty (sp_parent c)) eqn:Ee; cbn [negb andb].
   { clear. induction recs as [|q l IHl]; [reflexivity|]. cbn. exact IHl. }
   transitivity (length (filter (fun p => str_eqb (sp_id p) (sp_parent c) &&
-                                         (str_eqb (sp_service p) a && str_eqb (sp_service c) b)) recs)).
-  2:{ f_equal. apply filter_ext. intro p. rewrite andb_assoc. reflexivity. }
+                                         (str_eqb (sp_trace p) (sp_trace c) &&
+                                          str_eqb (sp_service p) a && str_eqb (sp_service c) b)) recs)).
+  2:{ f_equal. apply filter_ext. intro p. rewrite !andb_assoc. reflexivity. }
   rewrite (count_unique_id recs (sp_parent c) _ Hnd).
   destruct (find (fun p => str_eqb (sp_id p) (sp_parent c)) recs) as [p|] eqn:Ef.
-  - apply find_some in Ef as [Hp Hpx]. apply str_eqb_eq in Hpx.
-    rewrite (proj1 (svc_map_spec recs (sp_parent c) Hnd) p Hp Hpx).
+  - apply find_some in Ef as [Hp Hpx].
+    assert (Htr : str_eqb (sp_trace p) (sp_trace c) = true).
+    { unfold same_trace_parents in Hst. rewrite forallb_forall in Hst. specialize (Hst c Hc).
+      rewrite forallb_forall in Hst. specialize (Hst p Hp). rewrite Hpx in Hst. exact Hst. }
+    apply str_eqb_eq in Hpx.
+    rewrite (proj1 (svc_map_spec recs (sp_parent c) Hnd) p Hp Hpx). rewrite Htr. cbn [andb].
     destruct (str_eqb (sp_service p) a) eqn:Ea, (str_eqb (sp_service c) b) eqn:Eb; cbn; rewrite ?andb_false_r; try reflexivity.
     apply str_eqb_eq in Ea, Eb.
     assert (str_eqb (sp_service p) (sp_service c) = false) as -> by (apply str_eqb_neq; congruence). reflexivity.
@@ -1153,11 +1158,24 @@ Definition w_child (i : nat) : span := mkSpan [N.of_nat i] [2; N.of_nat i] [1; N
 Definition w_150 : list span := flat_map (fun i => [w_root i; w_child i]) (seq 1 150).
 
 Theorem dep_graph_page_refuted :
-  exists recs, NoDup (map sp_id recs) /\ length recs = 300%nat /\
+  exists recs, NoDup (map sp_id recs) /\ same_trace_parents recs = true /\ length recs = 300%nat /\
     cross_pairs recs [65] [66] = 150 /\ dep_count (dep_graph DEFAULT_PAGE recs) ([65], [66]) = 50.
 Proof.
   exists w_150. split; [apply str_nodupb_NoDup; vm_compute; reflexivity|].
-  split; [vm_compute; reflexivity|]. split; vm_compute; reflexivity.
+  split; [vm_compute; reflexivity|]. split; [vm_compute; reflexivity|]. split; vm_compute; reflexivity.
+Qed.
+
+(* CONFIRMED defect: spans are joined to their parents by span id alone.  Trace 1: root (service X1)
+   with child c1 (X2).  Trace 2: root (Y1) with a child (Y2) whose parent id is c1's id (which does
+   not exist in trace 2): the graph gets an edge X2 -> Y2 that no trace contains. *)
+Theorem dep_graph_cross_trace_refuted :
+  exists recs, NoDup (map sp_id recs) /\ (length recs <= DEFAULT_PAGE)%nat /\
+    cross_pairs recs [88;50] [89;50] = 0 /\ dep_count (dep_graph DEFAULT_PAGE recs) ([88;50], [89;50]) = 1.
+Proof.
+  exists [mkSpan [1] [1] [] [88;49] [114] 0 9 9 1; mkSpan [1] [2] [1] [88;50] [99] 1 2 1 1;
+          mkSpan [2] [3] [] [89;49] [114] 0 9 9 1; mkSpan [2] [4] [2] [89;50] [99] 1 2 1 1].
+  split; [apply str_nodupb_NoDup; vm_compute; reflexivity|].
+  split; [vm_compute; lia|]. split; vm_compute; reflexivity.
 Qed.
 
 (* ------------------------------------------------------------------ *)
